@@ -22,6 +22,9 @@ static std::vector<double> workload(int seed, int* stack_fail) {
   aVector y = sin(x) * p + x * x / (1.0 + x);
   aMatrix M = outer_product(x, y);
   adouble s = sum(M) + product(1.0 + 0.1 * y) + norm2(x);
+#ifdef HAVE_BLAS
+  { aMatrix P = matmul(M, M.T()); aVector q = matmul(M, x); s += sum(P) * 0.01 + sum(q) * 0.1; }   // dense products record derivative statements on the active stack
+#endif
   aVector z(2); z(0) = s * p; z(1) = dot_product(x, y);
   { Vector tmp(50 + seed % 7); tmp = 1.0; out.push_back(sum(tmp)); }     // private passive allocations
   out.push_back(value(z(0))); out.push_back(value(z(1)));
